@@ -102,6 +102,12 @@ def forced_programs(g, i):
     if k == 3:
         nm = r.choice(["valueOf", "toString", "constructor", "hasOwnProperty"])
         return "export type %s = { \"a\": Array<%s>; \"v\": %s };\nparse.buildParsers<{ X: %s, Y: { \"p\": %s; \"q\": %s } }>();" % (nm, nm, tsgen.ts(leaf), nm, nm, nm)
+    if k == 4 and (i // 8) % 2 == 1:
+        # index / mapped members whose value is optional, alone in their object
+        a, b = tsgen.ts(g.leaf()), tsgen.ts(g.leaf())
+        return ("export type PD = Partial<Record<string, %s>>;\nexport type MO = { [K in string]?: %s };\n"
+                "export type TP = Partial<Record<`x_${string}`, boolean>>;\nexport type RQ = Record<string, %s>;\n"
+                "parse.buildParsers<{ PD: PD, MO: MO, TP: TP, RQ: RQ, W: { \"d\": PD } }>();") % (a, b, a)
     if k == 4:
         return "export type I = { [key: string]: %s };\nexport type J = Record<string, %s>;\nparse.buildParsers<{ I: I, J: J }>();" % (tsgen.ts(g.leaf()), tsgen.ts(g.leaf()))
     if k == 5 and (i // 8) % 2 == 0:
